@@ -332,7 +332,7 @@ def run(chk):
             F = flag_text(fl)
             ireqs.append((".a *%s .b" % F, pair_doc(x, {}), False))
             imeta.append(("x * {}", F, {"a": x, "b": {}}, x))
-            if not has(fl, "?") and not (has(fl, "+") and has(fl, "d")):
+            if not has(fl, "?"):
                 ireqs.append((".a *%s .b" % F, pair_doc({}, x), False))
                 imeta.append(("{} * x", F, {"a": {}, "b": x}, x))
             if has(fl, "?"):
@@ -406,12 +406,11 @@ def run(chk):
                          (".a *+d .b", pair_doc({}, {"k": [[1]]}), False),
                          (".a *n .b", pair_doc({"k": None}, {"k": 5}), False),
                          (".a * .b", pair_doc({"ab": 1, "ac": 2}, {"a*": 3}), False)])
-    if probes[0] == ok_bytes({"k": [3, 2, 3]}) and probes[1] == ok_bytes({"k": [[1, 1]]}):
-        if chk.is_known("append-deep-double-apply"):
-            chk.known_finding("append-deep-double-apply", '{"a":{"k":[1,2]},"b":{"k":[3]}} | .a *+d .b -> {"k":[3,2,3]}; {"a":{},"b":{"k":[[1]]}} | .a *+d .b -> {"k":[[1,1]]}')
-        else:
-            violate({"kind": "eval", "expr": ".a *+d .b", "doc": {"a": {"k": [1, 2]}, "b": {"k": [3]}}, "impl": probes[0].decode(), "expect": ok_bytes({"k": [1, 2, 3]}).decode()},
-                    "`*+d` appends and then also overwrites by position")
+    # repaired (fixed: in KNOWN_FINDINGS.txt): `+d` used to append and then also assign b's items by position
+    for j, (dj, wj) in enumerate((({"a": {"k": [1, 2]}, "b": {"k": [3]}}, {"k": [1, 2, 3]}), ({"a": {}, "b": {"k": [[1]]}}, {"k": [[1]]}))):
+        if probes[j] != ok_bytes(wj):
+            violate({"kind": "eval", "expr": ".a *+d .b", "doc": dj, "impl": probes[j].decode("utf-8", "replace"), "expect": ok_bytes(wj).decode("utf-8", "replace")},
+                    "`*+d` does not append exactly once")
     if probes[2] == ok_bytes({"k": 5}) and not null_hits:
         chk.known_finding("only-new-overwrites-null", '{"a":{"k":null},"b":{"k":5}} | .a *n .b -> {"k":5}')
 
